@@ -1061,12 +1061,19 @@ def judge_x2(rep, case, res, counters):
         rep.inconc("no-output", case["id"])
         return
     if res.status == "timeout":
-        rep.violation(dict(sig0, what="timeout"), wit)
+        # both readers run in one case process: an expired limit says nothing about their agreement (seen: a 23-digit
+        # integer with an exponent of millions, which both readers turn into an exact bignum)
+        rep.inconc("timeout", "%s %s" % (case["id"], case["text"][:80]))
         return
     if res.status == "crash":
         wit["detail"] = res.detail
         rep.violation(dict(sig0, what="crash", how=(res.detail or {}).get("how")), wit)
         return
+    if case["origin"] == "mutated":
+        # the name of a mutated text is only the first construct found in it; two root causes that are listed findings are
+        # recognisable in the text itself and get their own signature fields, so that the entries can be narrow
+        sig0["hex_unterminated"] = bool(re.search(r"\\[xX][0-9a-fA-F]*(?![0-9a-fA-F;])", case["text"]))
+        sig0["label_above_16"] = any(int(m_) > 16 for m_ in re.findall(r"#(\d{1,30})[=#]", case["text"]))
     try:
         o = parse_all(res.text)[0]
         on, ol = outcome(o[0]), outcome(o[1])
